@@ -30,6 +30,9 @@ pub struct Layout {
     /// surplus FAT sectors (all FREESECT cells)
     pub extra_fat_sectors: usize,
     pub trailing_free_sectors: usize,
+    /// free mini sectors at the end of the mini stream (covered by the root entry's length)
+    #[serde(default)]
+    pub trailing_free_minis: usize,
     /// byte used to fill free sectors / free mini sectors (readers must not care)
     pub free_fill: u8,
 }
@@ -200,7 +203,7 @@ fn synth_inner(root: &Node, l: &Layout, plan_only: bool) -> Result<Synth, String
     if mini_perm.len() != logical_minis {
         return Err(format!("mini_perm has {} entries, content needs {}", mini_perm.len(), logical_minis));
     }
-    let mini_total = mini_perm.iter().map(|&x| x as usize + 1).max().unwrap_or(0);
+    let mini_total = mini_perm.iter().map(|&x| x as usize + 1).max().unwrap_or(0) + if logical_minis > 0 { l.trailing_free_minis } else { 0 };
     {
         let mut s = mini_perm.clone();
         s.sort();
